@@ -180,6 +180,9 @@ def phase_table(ctx, f):
     t = PhaseTable()
     t.name = None
     cands = [f] + [h for c in walk_own(f.node) if isinstance(c, ast.Call) for h in [repo.resolve_call(f, c)] if h is not None and h.module is f.module and h is not f and h.name != "__init__"]
+    from ..core import plain_statements
+
+    cands = [plain_statements(g) if any((isinstance(c, ast.Call) and isinstance(c.func, ast.Attribute) and c.func.attr == "setdefault") or isinstance(c, ast.GeneratorExp) for c in walk_own(g.node)) else g for g in cands]
     for g in cands:
         gd = local_defs(g.node)
         for st in walk_own(g.node):
